@@ -67,7 +67,7 @@ def _shard(args):
 
 
 def run(ctx) -> None:
-    pres = list(drv.PRE_CHOICES) if ctx.thorough else [None, 0x32, 0x25, 0x23, drv.PRE_BYTES[ctx.seed % 15]]
+    pres = list(drv.PRE_CHOICES) if ctx.thorough else [None, 0x32, 0x25, 0x37, 0x21, drv.PRE_BYTES[ctx.seed % 15]]
     pairs = [(p, op) for p in dict.fromkeys(pres) for op in range(256) if not (p is None and op in drv.PRE_BYTES)]
     tail = bytes.fromhex("3404050607")
     sts = states(ctx.thorough, ctx.seed)
